@@ -57,6 +57,12 @@ def scenarios(tier):
             ("S2:cache-miss,position-sharing", TWO, [("k0", "k0")], [("k1", "k0"), ("k1", "k1")], [("k0", "k0"), ("k1", "k0"), ("k1", "k1"), ("k0", "k1")], "dispatch"),
             ("S4:dependent-first-calls", DEP, [], [("2",), ("0",)], ["0", "1", "2", "s"], "dispatch"),
         ]
+    if tier != "quick":
+        # three threads (exhaustive at preemption bound 1): racing cache misses and call_next chains
+        S += [
+            ("S5:three-threads,cache-miss", CHAIN, [("5",)], [("k1",), ("k0",), ("k2",)], ["k0", "k1", "k2", "5"], "dispatch"),
+            ("S5:three-threads,first-calls", CHAIN, [], [("k1",), ("5",), ("k1",)], ["k0", "k1", "5", "s"], "dispatch"),
+        ]
     return S
 
 
@@ -99,8 +105,10 @@ def reference(sc):
             alone.append(norm_result(("ok", fn(*args_of(c)))))
         except Exception as e:  # noqa
             alone.append(norm_result(("exc", e)))
-    # both sequential orders must agree with "alone" (brute-force linearizability over two operations)
-    for order in ((0, 1), (1, 0)):
+    # all sequential orders must agree with "alone" (brute-force linearizability over the few operations)
+    import itertools as _it
+
+    for order in _it.permutations(range(len(calls))):
         p, fn = build(mspecs, warm, entry)
         for i in order:
             try:
@@ -200,8 +208,8 @@ def shard(shard, nshards, tier, seed):
     cfg = config(tier)
     for sc in scenarios(tier):
         b = cfg["bound"]
-        if tier != "quick" and not sc[2]:
-            b = 1  # no warm-up = the lazy build races (~1500 points per execution): bound 2 only on the warmed scenarios
+        if tier != "quick" and (not sc[2] or len(sc[3]) > 2):
+            b = 1  # no warm-up = the lazy build races (~1500 points per execution): bound 2 only on the warmed 2-thread scenarios
         explore_scenario(sc, b, shard, nshards, acc)
     if tier != "quick" and shard < 4:
         # validates the reduction of the scheduling points: bound 1 with every library line visible
@@ -231,7 +239,7 @@ def main(tier):
     cfg = config(tier)
     return core.finish(
         PROP, tier, "model_checking", merged, t0,
-        rule=f"two real threads on one shared function, serialised by a baton at every executed source line of the library's "
+        rule=f"two (thorough: also three, at bound 1) real threads on one shared function, serialised by a baton at every executed source line of the library's "
              f"dispatch / build / resolution code; all schedules with at most {cfg['bound']} preemption(s) (iterative context bounding; "
              "first calls racing the lazy build: bound 1) over scenarios S1 racing first calls (same / different arguments, through "
              "the dispatch function, Ovld.__call__, a bound method), S2 racing cache misses (same / different / position-sharing "
